@@ -96,11 +96,42 @@ def abort_family():
     return cases
 
 
+def recompile_mixed_family():
+    """Engine-only (the machine holds one program): live instances of TWO scripts in every creation order of
+    length 2..4; recompiling one script destroys exactly its instances (every one of them, none of the other
+    script's).  (description, lines, {line index: expected instance = thread = VM = timer count})"""
+    import itertools
+    src = "t0:\nprintln \"a\"\nwait 10\nprintln \"b\"\nend\n"
+    sm, sk = "script m " + src.encode().hex(), "script k " + src.encode().hex()
+    cases = []
+    for n in (2, 3, 4):
+        for order in itertools.product("mk", repeat=n):
+            if len(set(order)) < 2:
+                continue
+            for first in "mk":
+                other = "k" if first == "m" else "m"
+                lines = ["reset", sm, sk] + ["callv %s t0" % x for x in order]
+                expect = {len(lines) - 1: n}
+                lines.append(sm if first == "m" else sk)
+                expect[len(lines) - 1] = order.count(other)
+                lines.append("step 125")
+                expect[len(lines) - 1] = order.count(other)
+                lines.append("callv %s t0" % first)
+                expect[len(lines) - 1] = order.count(other) + 1
+                lines.append(sk if first == "m" else sm)
+                expect[len(lines) - 1] = 1
+                lines += ["step 20000", "reset-director"]
+                expect[len(lines) - 2] = 0
+                cases.append(("instances %s, recompile %s then %s" % ("".join(order), first, other), lines, expect))
+    return cases
+
+
 def engine_only_family(ctx, exe):
     """runs `abort_family` on the real engine only; every answer goes through the monitor, every Reset and
     every recompile of the only script must leave all pools empty, the last line must be idle and empty"""
     n = bad = 0
-    for desc, lines in abort_family():
+    for case in [c + ({},) for c in abort_family()] + recompile_mixed_family():
+        desc, lines, expect = case
         impl, crash, info = common.run_lines(exe, [], lines, timeout=60)
         n += 1
         why = None
@@ -112,7 +143,9 @@ def engine_only_family(ctx, exe):
             for i, l in enumerate(impl):
                 f = schedcheck.fields(l)
                 m = monitor(l)
-                if not m and i > 2 and (lines[i] == "reset-director" or lines[i].startswith("script ")) and any(
+                if not m and i in expect and any(f.get(k) != str(expect[i]) for k in ("cls", "thr", "vm", "tim")):
+                    m = "exactly %d instance(s) / thread(s) / VM(s) / timer entries must be alive here: %s" % (expect[i], l)
+                if not m and not expect and i > 2 and (lines[i] == "reset-director" or lines[i].startswith("script ")) and any(
                         int(f.get(k, "0")) for k in ("cls", "thr", "vm", "tim")):
                     m = "Reset / recompile left something alive: " + l
                 if not m and i == len(impl) - 1 and f.get("idle") != "1":
@@ -124,13 +157,15 @@ def engine_only_family(ctx, exe):
             continue
         bad += 1
         if bad <= 3:
-            sig = crash if crash else "phi:abort-then-clean"
+            sig = crash if crash else ("phi:recompile-exactly-old-instances" if expect else "phi:abort-then-clean")
             replay = common.save_replay(ctx, {
                 "property": "C13", "kind": "engine-only family", "case": desc, "lines": lines, "impl_out": impl,
+                "expect_counts": {str(k): v for k, v in expect.items()},
                 "crash": crash, "crash_info": info if crash else "", "signature": sig, "why": why,
                 "how_to_replay": "python3 tools/check.py C13 --replay <this file>"})
             ctx.violations.append({"signature": sig, "replay": replay, "why": why, "found_input": True})
-    ctx.oblige("engine-only: MaxStackDepth abort of a recursive start chain, then Reset / recompile / load leave nothing (%d scenarios)" % n,
+    ctx.oblige("engine-only: MaxStackDepth abort of a recursive start chain, then Reset / recompile / load leave nothing; "
+               "recompile with live instances of two scripts kills exactly the old instances (%d scenarios)" % n,
                bad == 0, "%d failing" % bad, reported=True)
     ctx.stats["abort_family_scenarios"] = n
     return bad
@@ -163,9 +198,14 @@ def replay(ctx, obj):
         if crash:
             print("CRASH", crash); print(info)
         bad = crash is not None or impl != obj.get("impl_out")
-        still = crash is not None or any(monitor(a) for a in impl) or any(
-            int(schedcheck.fields(a).get(k, "0")) for l, a in list(zip(obj["lines"], impl))[3:] if l == "reset-director" or l.startswith("script ")
-            for k in ("cls", "thr", "vm", "tim"))
+        exp = obj.get("expect_counts") or {}
+        if exp:
+            still = crash is not None or any(monitor(a) for a in impl) or any(
+                schedcheck.fields(impl[int(i)]).get(k) != str(v) for i, v in exp.items() if int(i) < len(impl) for k in ("cls", "thr", "vm", "tim"))
+        else:
+            still = crash is not None or any(monitor(a) for a in impl) or any(
+                int(schedcheck.fields(a).get(k, "0")) for l, a in list(zip(obj["lines"], impl))[3:] if l == "reset-director" or l.startswith("script ")
+                for k in ("cls", "thr", "vm", "tim"))
         print("replay:", "still fails" if still else "no failure")
         return 1 if still else 0
     return schedcheck.replay(ctx, PROP, obj)
